@@ -5,6 +5,7 @@
 #include "place_detailed/detailed_placement.hpp"
 #include "place_global/transportation.hpp"
 #include "place_global/transportation_1d.hpp"
+#include "place_global/density_legalizer.hpp"
 #include <algorithm>
 #include "json.hpp"
 #include "project.hpp"
@@ -365,8 +366,30 @@ inline Value handleT1dImpl(const Value &v) {
   return r;
 }
 
+// BisectImpl instance: the real split rule (exposed by the COLOQUINTE_VERIF hook) on the same sorted cost list
+inline Value handleBisect(const Value &v) {
+  std::vector<int> dem = v["dem"].ints();
+  std::vector<long long> cost = v["cost"].longs();
+  int n = (int)dem.size();
+  // any grid will do: the split helpers only read the cell demands
+  DensityGrid grid(4, std::vector<Rectangle>{Rectangle(0, 16, 0, 8)});
+  DensityLegalizer leg(grid, dem);
+  std::vector<std::pair<float, int>> cc;
+  for (int i = 0; i < n; ++i) cc.emplace_back((float)cost[i], i);
+  int ideal = leg.findIdealSplitPos(cc);
+  int split = leg.findConstrainedSplitPos(cc, ideal, v["c1"].asInt(), v["c2"].asInt());
+  auto parts = leg.doSplit(cc, split);
+  bool same = ideal == v["ideal"].asInt() && split == v["split"].asInt() && (int)parts.first.size() == split &&
+              (int)parts.first.size() + (int)parts.second.size() == n;
+  Value r = Value::object();
+  r.set("ok", true).set("impl", same);
+  if (!same) r.set("got", Value::object().set("ideal", ideal).set("split", split));
+  return r;
+}
+
 inline Value handle(const Value &v) {
   const std::string &k = v["k"].asStr();
+  if (k == "bisect") return handleBisect(v);
   if (k == "t1dimpl") return handleT1dImpl(v);
   if (k == "pin") return handlePin(v);
   if (k == "row") return handleRow(v);
